@@ -1829,7 +1829,8 @@ pub(crate) fn resolve_temp_id(id: &str) -> Option<usize> {
             if !x.is_uppercase() {
                 return None;
             }
-            return Some(id[2..].parse().ok()?);
+            //the type letter may be any (multi-byte) uppercase character, byte 2 is then not a character boundary
+            return Some(id.get(2..)?.parse().ok()?);
         }
     }
     None
